@@ -140,6 +140,38 @@ def generate(rng, tier):
             else:
                 line = i2_line(S, axes[0], axes[1], shape, flat, False, e, dtag=dtag, dlay=rng.choice(gen.LAYS_ND))
             cases.append({"line": line, "meta": {"ok": ok, "entry": ent}})
+    # axes whose last knot is +inf (a flat-tail table: strictly increasing, so the builders accept it; seed C05-r11m1: a "finite queries
+    # only" guard in the range predicates): the query +inf equals the last knot and lies in the closed range, and so does every finite
+    # value above the first knot; -inf, NaN and values below the first knot do not
+    for _ in range(gen.N(tier, 12, 300)):
+        dims = rng.choice([1, 1, 2])
+        n = rng.choice([3, 4, 6])
+        ax = sorted({rng.randint(-40, 40) / 4.0 for _ in range(3 * n)})[:n - 1] + [math.inf]
+        if len(ax) != n:
+            continue
+        cand1 = [(math.inf, True), (1.7976931348623157e308, True), (ax[0], True), (ax[1], True), (ax[-2] + 1.0, True),
+                 (-math.inf, False), (math.nan, False), (next_down(ax[0]), False)]
+        if dims == 1:
+            shape, axes, cand = [n] + gen.trailing_shape(rng, 1), [ax], [cand1]
+        else:
+            ay = [float(i) for i in range(3)]
+            shape, axes = [n, 3] + gen.trailing_shape(rng, 1), [ax, ay]
+            if rng.random() < 0.5:
+                shape, axes = [3, n] + shape[2:], [ay, ax]
+            candy = [(0.0, True), (2.0, True), (1.5, True), (2.5, False), (-0.5, False)]
+            cand = [cand1, candy] if axes[0] is ax else [candy, cand1]
+        flat = [rng.uniform(-5, 5) for _ in range(gen.shape_size(shape))]
+        for _ in range(6):
+            pick = [rng.choice(c) for c in cand]
+            ok = all(p[1] for p in pick)
+            ent = rng.choice(["single", "array"])
+            args = [p[0] for p in pick]
+            e = e_single("F", *args) if ent == "single" else e_array("F", [1], *[[a] for a in args])
+            if dims == 1:
+                line = i1_line("F", axes[0], shape, flat, ("lin", False), e)
+            else:
+                line = i2_line("F", axes[0], axes[1], shape, flat, False, e)
+            cases.append({"line": line, "meta": {"ok": ok, "entry": ent}})
     return cases
 
 
